@@ -10,8 +10,9 @@ from harness.gen import ir as G
 from harness.props.c11 import ALPHABET, mutate, repo_docstrings
 
 STRUCT = "field_compact_split field_adjacent_split field_absorbed_split field_absorbed_pieces field_absorbed_nl field_unterminated_split field_single_line_split field_single_line_header_lost field_no_token_split field_raises_split field_raises_pieces exact_ordered exact_parts exact_partitions exact_whence field_compact_whence field_adjacent_whence field_absorbed_whence whence_slices not_partitions_of_gt raises_only_not_partition numpy_split numpy_partitions numpy_no_colon_cut numpy_whence numpy_indented_split C15_split_structured idx_ordered header_token_word_needed header_returns_word_needed header_exact_keyword_line_harmless footer_quiet_needed section_start_needed single_line_witness raises_only_witness raises_min_witness rtype_lands_in_footer numpy_body_quiet_needed numpy_indented_instance numpy_underline_needed numpy_format_irrelevant".split()
-MODULE = "CddVerif.Properties.C15Struct"  # structural split theorems; must import Properties.C15 (checked below by listing its theorems too)
-THEOREMS = ["C15Struct." + t for t in STRUCT] + ["C15.slice_partition", "C15.split_partial", "C15.haf_header_prefix", "C15.haf_footer_suffix",
+ALLSTR = "start_range last_exits idx_range last_le_length_or_dashes last_beyond_end_witness last_beyond_end_witness2 last_raises_iff last_typeError last_indexError last_total raises_witnesses last_never_raises_without_dash idx_ordered_all C15_split_ordered unordered_classified unordered_not_partition clauseA_needed clauseA_needed_returns clauseB_needed ordered_not_necessary".split()
+MODULE = "CddVerif.Properties.C15All"  # every-string theorems (C15All) on top of the structural split theorems (C15Struct), which import Properties.C15
+THEOREMS = ["C15All." + t for t in ALLSTR] + ["C15Struct." + t for t in STRUCT] + ["C15.slice_partition", "C15.split_partial", "C15.haf_header_prefix", "C15.haf_footer_suffix",
             "C15.whence_preserves_header", "C15.rawParts_prefix_suffix"]
 STYLES = ("rest", "google", "numpydoc")
 PROSE = ["Summary line here.", "Compute the thing quickly.", "Longer paragraph one", "continues on this line.", "Second paragraph.",
@@ -190,7 +191,9 @@ def run(chk: core.Check) -> int:
     chk.lean(MODULE, THEOREMS)
     chk.trusted_base += [
         "models lean/CddVerif/Model/DocstringUtils.lean + DocSplit.lean: faithful ports of the index walkers, parse_docstring_into_header_args_footer, header_args_footer_to_str, ensure_doc_args_whence_original, num_of_nls, textwrap.indent — tied by exact comparison of indices, parts and strings",
-        "the ordering start <= last of the two walkers is observed (exhaustive short token strings + generated documents), not proved; the parse side (no prose absorbed into a type/default) is checked on the real code only",
+        "Properties/C15All.lean: for EVERY string the walkers' indices are range-bounded (start_range, idx_range; `last` may exceed the length by up to 2 on the NumPy dashes exit — "
+        "witnesses), _get_token_last_idx raises exactly when the token index reaches the length (last_raises_iff), and the decidable condition `Ordered` implies start <= last and hence the "
+        "partition (idx_ordered_all, C15_split_ordered) with each clause shown necessary; an exact characterisation of ordering is not proved (Ordered is sufficient, not necessary); the parse side (no prose absorbed into a type/default) is checked on the real code only",
     ]
     rng = chk.rng
     have = core.DRIVER.exists()
